@@ -19,6 +19,7 @@ ENGINES = {
     "C07": ("eng_nv", "run"),
     "C12": ("eng_epr", "run"),
     "C13": ("eng_ctrl", "run"),
+    "C14": ("eng_c14", "run"),
     "C15": ("eng_msg", "run"),
     "C16": ("eng_range", "run"),
     "C17": ("eng_text", "run"),
